@@ -384,6 +384,29 @@ def rule_raisers(ck: Check, repo: Repo) -> None:
             r.violation(q2, "unsupported single-line form must raise CommentCreateError", f"{leaf.outcome}", repo.loc(f2))
 
 
+def rule_style_predicates(ck: Check, repo: Repo, rid: str = "R9") -> None:
+    """The pre-flight test (`has_style`) and the per-file decision (`get_comment_style` in add_header_to_file) must be
+    the SAME predicate: a file that passes the pre-flight test but has no style afterwards falls through to the
+    default style and is modified instead of being refused before anything is touched."""
+    r = ck.rule(rid, "pre-flight style predicates are defined through get_comment_style (same answer as the per-file decision)")
+    from ..rules import deep_text
+    want = {"reuse.comment.has_style": ["get_comment_style(path) is not None"],
+            "reuse.comment.is_uncommentable": ["get_comment_style(path) == UncommentableCommentStyle",
+                                              "get_comment_style(path) is UncommentableCommentStyle"]}
+    for q, forms in want.items():
+        fn = repo.func(q)
+        ck.analysed_fn(q)
+        p0 = fn.args.args[0].arg if fn.args.args else "path"
+        rets = [deep_text(fn, n.value).replace(f"({p0})", "(path)") for n in ast.walk(fn) if isinstance(n, ast.Return) and n.value is not None]
+        r.instance(q, {"returns": rets})
+        if len(rets) != 1 or rets[0] not in forms:
+            r.violation(q, f"{q.rsplit('.', 1)[-1]} is not defined through get_comment_style",
+                        f"returns {rets}; expected {forms[0]} - the pre-flight answer can then differ from the style the file is"
+                        f" actually given (None -> default style), so an unrecognised file is annotated instead of refused",
+                        repo.loc(fn))
+
+
+
 def run(ck: Check, repo: Repo) -> None:
     ck.explanation = (
         "Typestate over every path of add_header_to_file and of the annotate loop: states INIT -> BUILT (builder"
@@ -409,3 +432,4 @@ def run(ck: Check, repo: Repo) -> None:
     # a failure must be REPORTED (and the remaining files processed): the error handlers themselves must not raise
     from . import c16
     c16.rule_format_strings(ck, repo, "R8")
+    rule_style_predicates(ck, repo)
